@@ -54,6 +54,12 @@ def run(check: Check, world_spec, monitor_spec, K: int, H: int, needs: Sequence[
     cov["abstraction_audit"] = {"fields_put_back_into_key": list(AUDIT_KEPT)}
     if res.cov.get("CAPPED"):
         check.notes.append(f"{name}: exploration capped before the horizon (max_states / deadline); not exhaustive")
+        check._fsx_capped = True
+    # the bounded space (every run of this world with at most K deviations, at most two per step, within H steps) is finite
+    # and was enumerated completely unless a cap was hit; ENUM parts of the same check set their own flag
+    if not getattr(check, "_fsx_capped", False) and not getattr(check, "_enum_incomplete", False):
+        check.exhaustive = True
+    cov["exhaustive_scope"] = "every run of each listed world with at most K deviations (controller instructions / environment events, at most two per step) within H steps, for the K and H listed under explorations; ENUM parts: the alphabets and bounds in coverage.rule"
     for sig, v in res.violations.items():
         check.add(
             Finding(
